@@ -61,4 +61,8 @@ CHECKS["C13"] = dict(level="model_checking", engine="tlc-gen-replay", technique=
 CHECKS["C20"] = dict(level="model_checking", engine="tlc-gen-replay", technique=_LT + " [FactoryOnce/FactorySerial/NoFactoryForFixed on the model state reached with the real code; caller-thread check in the recording factory]",
    text="FactoryOnce, FactorySerial, NoFactoryForFixed are TLC invariants of the repaired protocol (and TLC finds them violated on the unserialised one - negative control). Every replayed behaviour re-checks them on observations (who is inside the factory after each step, calls per name, calling thread); schedules that violate them in the unserialised model are attempted against the code and must be unrealisable.",
    note=_LB)
+CHECKS["C18"] = dict(level="model_checking",
+   technique="TLA+ spec Split (SplitSeconds/Femtos/JoinSeconds/fraction rendering over exact integers) model-checked by TLC (floor, join-split, range-failure laws) + TLC trace validation of split_seconds, lookup/convert/format on time_point<D> and parse/join_seconds events for 13 duration types",
+   text="The floor laws are TLC invariants on all counts -400..400 x 5 ratios; every real call of the template panel (each remainder class on both sides of the epoch, each representation's limits, int8/int16/int32 overflow boundaries) is validated by TLC against the same operators, including the rendered %s / %E#f / %E*f text.",
+   note=_TB + "sub-second targets only inside their own range (header TODO #199 is outside the property).")
 NOT_APPLICABLE = {}
